@@ -227,12 +227,26 @@ class FGen:
         if not same:
             return None
         r = rng.random()
+        twos = [a for a, l in sc["arrs"].items() if l == 2]
+        fours = [a for a, l in sc["arrs"].items() if l == 4]
+        if d > 0 and rng.random() < 0.35:
+            r = 0.8 + 0.12 * rng.random()         # linear algebra
         if d <= 0 or r < 0.3:
             return ["*", ["num", rng.choice([2, 0.5, -1.5])], ["var", rng.choice(same)]]
         if r < 0.6:
             return ["+", ["var", rng.choice(same)], ["*", self.num_leaf(sc), ["var", rng.choice(same)]]]
         if r < 0.8:
             return ["-", ["var", rng.choice(same)], ["var", rng.choice(same)]]
+        if r < 0.86 and ((length == 2 and fours) or (length == 4 and twos)):
+            # products whose left factor is not square: (1x2)(2x2) -> 1x2, (2x1)(1x2) -> 2x2
+            if length == 2:
+                return ["call", "<builtin>matmul", [["var", rng.choice(same)], ["var", rng.choice(fours)],
+                                                     ["num", 2], ["num", 2]], {}]
+            return ["call", "<builtin>matmul", [["var", rng.choice(twos)], ["var", rng.choice(twos)],
+                                                 ["num", 1], ["num", 2]], {}]
+        if r < 0.88:
+            # transposing a row or a column (n x 1 <-> 1 x n): the entries stay where they are
+            return ["call", "<builtin>transpose", [["var", rng.choice(same)], ["num", rng.choice([1, length])]], {}]
         if length == 4 and r < 0.92:
             a, b = rng.choice(same), rng.choice(same)
             q = rng.random()
@@ -350,6 +364,31 @@ class FGen:
                 continue
             if self.memory_bias and rng.random() < 0.45:
                 r = 0.3 + 0.25 * rng.random()     # user-type traffic
+            if rng.random() < 0.05 and not any(n in sc["nums"] or n in sc["bools"] or n in sc["uts"]
+                                               for n in ("la", "lb", "lc", "ld")):
+                # products whose left factor is not square: (1x2)(2x2) -> 1x2 and (2x1)(1x2) -> 2x2, read back
+                # element by element
+                c = rng.choice(["i", "j"])
+                for nm, ln in (("la", 2), ("lb", 4)):
+                    ops.append(["call", [nm], "<builtin>array", [["num", ln]], {}, 0])
+                    ops.append(["assign", nm, ["var", c], ["+", ["*", ["num", rng.choice([0.5, 1.5, -1])], ["var", c]],
+                                                         self.num_leaf(sc)], [[c, ["num", 0], ["num", ln]]], 0])
+                    sc["arrs"][nm] = ln
+                ops.append(["call", ["lc"], "<builtin>matmul", [["var", "la"], ["var", "lb"], ["num", 2], ["num", 2]],
+                            {}, 0])
+                ops.append(["call", ["ld"], "<builtin>matmul", [["var", "la"], ["var", "la"], ["num", 1], ["num", 2]],
+                            {}, 0])
+                sc["arrs"]["lc"] = 2
+                sc["arrs"]["ld"] = 4
+                tgt = rng.choice(persist["nums"]) if persist["nums"] and rng.random() < 0.6 else "x"
+                if tgt not in sc["bools"] and tgt not in sc["arrs"] and tgt not in sc["uts"]:
+                    ops.append(["assign", tgt, None,
+                                ["+", ["sub", ["var", "lc"], ["num", rng.randrange(2)]],
+                                 ["*", ["num", 0.5], ["sub", ["var", "ld"], ["num", rng.randrange(4)]]],
+                                 ["call", "<builtin>len", [["var", "ld"]], {}]], [], 0])
+                    if tgt not in sc["nums"]:
+                        sc["nums"].append(tgt)
+                continue
             if rng.random() < 0.04 and not any(n in sc["nums"] or n in sc["bools"] or n in sc["uts"]
                                                for n in ("pa", "pb", "a2")):
                 # an array variable that is already allocated is assigned, as a whole, array expressions of
@@ -472,7 +511,7 @@ class FGen:
                     val = ["+", ["*", ["num", 0.5], ["var", c]], val if val[0] not in ("+", "-") else self.num_leaf(sc)]
                 ops.append(["assign", lhs, ["var", c], val, [[c, ["num", 0], ["num", n]]], self.s(val)])
                 sc["arrs"][lhs] = n
-            elif r < 0.7 and sc["arrs"]:
+            elif r < 0.73 and sc["arrs"]:
                 a = rng.choice(sorted(sc["arrs"]))
                 rhs = self.arr_expr(sc, 1, sc["arrs"][a])
                 lhs = rng.choice(["a2", "b2"])
